@@ -509,6 +509,18 @@ func c15InterpCases(thorough bool, f func(p c15Prog) bool) {
 			return
 		}
 	}
+	// warm memory + operands at the 64-bit edge
+	stop := false
+	c15EdgeProgs([]uint64{gasM[len(gasM)-1]}, func(p c15Prog) bool {
+		if !f(p) {
+			stop = true
+			return false
+		}
+		return true
+	})
+	if stop {
+		return
+	}
 	// pairs: A;B over the pair menus (halting ops only as second)
 	gasP := []uint64{30000000}
 	if thorough {
@@ -546,6 +558,49 @@ func c15InterpCases(thorough bool, f func(p c15Prog) bool) {
 							return
 						}
 					}
+				}
+			}
+		}
+	}
+}
+
+// c15MenuEdge: values around the 64-bit wrap of the interpreter's word rounding (offset+size is
+// rounded up to a multiple of 32 before it is priced and allocated), with small companions.
+var c15MenuEdge = func() []*uint256.Int {
+	max := new(uint256.Int).SetUint64(^uint64(0))
+	m := []*uint256.Int{uint256.NewInt(0), uint256.NewInt(1), uint256.NewInt(32)}
+	for _, d := range []uint64{33, 32, 31, 2, 1, 0} {
+		m = append(m, new(uint256.Int).Sub(max, uint256.NewInt(d)))
+	}
+	return m
+}()
+
+// c15EdgeProgs: MSTORE(0,1) (so that memory is not empty) followed by one opcode whose operand tuple
+// contains at least one value within 33 of 2^64 (the other operands from {0,1,32}; opcodes with two
+// memory ranges: second range (0,0) or equal to the first).
+func c15EdgeProgs(gasM []uint64, f func(c15Prog) bool) {
+	var warm c15OpCall
+	c15EnumOp(c15OpSpecByName("MSTORE"), []*uint256.Int{uint256.NewInt(0)}, nil, nil, func(oc c15OpCall) bool { warm = oc; return false })
+	edge := new(uint256.Int).SetUint64(^uint64(0) - 33)
+	for i := range c15OpSpecs {
+		b := &c15OpSpecs[i]
+		var calls []c15OpCall
+		c15EnumOp(b, c15MenuEdge, c15MenuEdge, c15MenuData[:1], func(oc c15OpCall) bool {
+			for k, a := range oc.Args {
+				if b.Roles[k] != rOff && b.Roles[k] != rSize {
+					continue
+				}
+				if v, _ := uint256.FromHex(a); v.Cmp(edge) >= 0 {
+					calls = append(calls, oc)
+					break
+				}
+			}
+			return true
+		})
+		for _, oc := range c15Thin(b, calls) {
+			for _, g := range gasM {
+				if !f(c15Prog{Ops: []c15OpCall{warm, oc}, Gas: g}) {
+					return
 				}
 			}
 		}
@@ -622,6 +677,7 @@ func c15PartInterp(x *c15Ctx, dl time.Time) {
 	p.Bound("opcodes", len(c15OpSpecs))
 	p.Bound("operand_menu", "0,1,31,32,33,2^16,2^24,2^31,2^32,2^64-1,2^64,2^256-1 (quick: 0,1,32,2^16,2^32,2^256-1 for opcodes with two memory ranges)")
 	p.Bound("pair_menu", "offset {0,2^16} x size {0,32,2^16}")
+	p.Bound("edge_menu", "MSTORE(0,1); op with operands from {0,1,32,2^64-34..2^64-31,2^64-3,2^64-2,2^64-1}, at least one within 33 of 2^64")
 	p.Bound("gas_menu", "quick 100, 30k, 30M; thorough 3, 100, 30k, 1M, 30M")
 	m, err := c15NewVM()
 	if err != nil {
